@@ -71,6 +71,20 @@ def run(ctx):
     first_ok = not [e_ for e_ in th1.ev if e_[0] == 'close']
     r2.check(first_ok and closed2 == opened1 and kinds2 == sorted(kinds2), 'trigger_set-closes-before-reopening', tset.unit + ':trigger_set',
              'first call: %s; second call: %s; documented: the second call closes exactly the descriptors the first one opened, and only then opens the fifo again (otherwise the daemon leaks a descriptor per scan, or listens on a closed one)' % (th1.ev, th2.ev))
+    # a re-arming whose open fails (ENFILE, the fifo being recreated): what the file remembers afterwards is no descriptor that it closed
+    class TF(TH):
+        def _open(self, E, x, args):
+            self.ev.append(('open-fails', self.cstring(E, _lt._one(args[0])), -1))
+            return [Outcome(ret=fs(-1))]
+        prim_open_read = prim_open_write = prim_open = _open
+    th3 = TF()
+    _lt._run_conc(db, rep, db.program('qmail-send'), tset, {k_: v_ for k_, v_ in th1.ends[0][0].items() if '::' not in k_}, 'trigger_set', th3)
+    if len(th3.ends) != 1:
+        raise AnalysisBroken('trigger_set with a failing open: %d ends' % len(th3.ends))
+    closed3 = {e_[1] for e_ in th3.ev if e_[0] == 'close'}
+    stale = {k_: _lt._one(v_) for k_, v_ in th3.ends[0][0].items() if k_.startswith('S:trigger_c:') and _lt._one(v_) in closed3}
+    r2.check(not stale and closed3 == set(opened1), 'trigger_set-forgets-a-descriptor-it-closed', tset.unit + ':trigger_set',
+             'second call with open() failing: events %s; afterwards the file still holds %s - a closed descriptor number: select() on it fails with EBADF on every round (the daemon spins and never sleeps), or watches whatever file gets that number next' % (th3.ev, stale))
     lits_set = {e_[1] for e_ in th1.ev if e_[0] == 'open'}
     tpull = db.fn('triggerpull.c', 'triggerpull')
     thp = TH()
@@ -78,7 +92,37 @@ def run(ctx):
     _lt._run_conc(db, rep, db.program('qmail-queue'), tpull, {}, 'triggerpull', thp)
     lits_pull = {e_[1] for e_ in thp.ev if e_[0] == 'open'}
     r2.check(len(lits_set) == 1 and lits_set == lits_pull and None not in lits_set, 'trigger-path-agrees', 'trigger.c/triggerpull.c', 'daemon opens %s, injector opens %s' % (sorted(map(str, lits_set)), sorted(map(str, lits_pull))))
-    r2.expect_min(6)
+    # every re-arming of the trigger is answered by a scan: trigger_set() closes and reopens the fifo, which discards a pull that is still
+    # waiting in it - harmless only if the directory is scanned afterwards (the scanner itself, or start-up code that makes the scan due)
+    from qv.lib import deep_calls, loop_headers_containing
+    fns_ = [f_ for f_ in prog.functions() if f_.blocks]
+    mainf = prog.fn('main', 'qmail-send.c')
+
+    def callers_of(name):
+        return [(f_, c_) for f_ in fns_ for c_ in f_.calls(name)]
+
+    def rearm_ok(g, seen=()):
+        if deep_calls(prog, g, ('opendir', 'readsubdir_init', 'fdopendir'), depth=3):
+            return True, None
+        sites = callers_of(g.name)
+        if not sites or g.name in seen:
+            return False, '%s() is never followed by a scan' % g.name
+        for f_, c_ in sites:
+            if f_ is mainf or (f_.name == 'main' and f_.unit == mainf.unit):
+                if loop_headers_containing(f_, f_.pos[c_.id][0]):
+                    return False, '%s() runs inside the main loop (%s) and scans nothing afterwards' % (g.name, c_.where)
+            else:
+                ok_, why_ = rearm_ok(f_, seen + (g.name,))
+                if not ok_:
+                    return False, '%s() <- %s' % (g.name, why_)
+        return True, None
+    direct = callers_of('trigger_set')
+    if len(direct) < 2:
+        raise AnalysisBroken('qmail-send: %d call sites of trigger_set()' % len(direct))
+    for f_, c_ in direct:
+        ok_, why_ = rearm_ok(f_)
+        r2.check(ok_, 'every-re-arming-is-followed-by-a-scan:%s' % f_.name, c_.where, 'trigger_set() at %s: %s - the close-and-reopen discards a wake-up byte that arrived before it, and nothing looks at todo/ until the next periodic scan' % (c_.where, why_))
+    r2.expect_min(9)
 
     r3 = rep.rule('C16.3-timeout-computation', 'R-TABLE', 'select timeout: zero iff wakeup <= recent, otherwise distance + SLEEP_FUZZ >= 1; every assignment through wakeup is a min-update or a zero under a work-pending condition; every due-time source present')
     # the earliest due time is what prioq_min() says it is: the heap operations serve entries in time order (C15 rule 5)
